@@ -138,7 +138,7 @@ class Report:
         own = foreign = 0
         foreign_clauses = {}
         for tid, lst in sorted(verdicts.rejects.items()):
-            mine = [(l, c) for l, c in lst if fam is None or fam.search(c)]
+            mine = [(l, c) for l, c in lst if fam is None or fam.search(c) or c.startswith("tlc.evaluation-error")]
             if mine:
                 own += 1
                 sc = scenarios[tid - 1]
